@@ -45,7 +45,10 @@ if not ids:
     ids = [c["property_id"] for c in json.load(open("/verif/MANIFEST.json"))["checks"]]
 env = dict(os.environ, VERIF_REPO=WT, VERIF_OUT=OUT)
 for i in ids:
-    p = subprocess.run(["/verif/check", i], capture_output=True, text=True, env=env, cwd="/verif")
+    try:
+        p = subprocess.run(["/verif/check", i] + (["--only", os.environ["BENIGN_ONLY"]] if os.environ.get("BENIGN_ONLY") else []), capture_output=True, text=True, env=env, cwd="/verif", timeout=int(os.environ.get("BENIGN_TIMEOUT", "1500")))
+    except subprocess.TimeoutExpired:
+        print(kind, i, "TIMEOUT"); sys.stdout.flush(); continue
     v = sorted({re.sub(r".*replays/[^/]*/", "", l).split(".json")[0][-90:] for l in p.stdout.split("\n") if l.startswith("VIOLATION")})
     u = [l[:160] for l in p.stdout.split("\n") if l.startswith("UNDECIDED")]
     print(kind, i, "rc=%d" % p.returncode, "; ".join(v[:4]), " | ".join(u[:3])); sys.stdout.flush()
